@@ -264,6 +264,30 @@ def extra_checks(ctx):
                 ctx.count('corpus_cases')
                 fails += run_abort(ctx, driver, csc, SC.model_session(driver, csc), fault=rec.get('fault'),
                                    inject=rec.get('inject'), policy=rec.get('policy'))
+        # the operator's interrupt as a REAL signal: Server.run() in the main thread of a child process over loopback TCP,
+        # SIGINT while board 2 is under way (harness/sigint_smoke.py); what the scheduler-injected KeyboardInterrupt cannot
+        # exhibit (signal dispositions, the process dying before the `with` unwinds)
+        import subprocess
+        import sys
+        for rep in range(1 if ctx.quick else 3):
+            try:
+                pr = subprocess.run([sys.executable, os.path.join(common.VERIF, 'harness', 'sigint_smoke.py')],
+                                    env=dict(os.environ, PYTHONPATH=common.REPO), stdout=subprocess.PIPE,
+                                    stderr=subprocess.STDOUT, text=True, timeout=120)
+                rc, out = pr.returncode, pr.stdout
+            except subprocess.TimeoutExpired as e:
+                rc, out = 1, 'watchdog of the harness: no exit after 120 s ' + str(e.stdout)[-300:]
+            if rc == 3:
+                ctx.count('sigint_smoke_unavailable')
+                break
+            ctx.count('sigint_smoke_sessions')
+            ctx.count('_cases')
+            if rc != 0:
+                fails.append({'key': 'log-after-real-sigint', 'kind': 'counterexample', 'scenario': None,
+                              'diff': {'what': 'SIGINT sent to the table manager process while board 2 was under way: the output '
+                                               'file is not the complete log of board 1', 'output': out[-800:],
+                                       'rerun': 'PYTHONPATH=/repo /venv/bin/python harness/sigint_smoke.py'}})
+                break
         ctx.samples.append({'note': 'a case is (scenario, abort point, fault kind); the output file is compared with the '
                                     'closed log of the completed boards'})
     return fails
